@@ -1235,3 +1235,90 @@ Section Succeeded2.
       + now injection H as <- _ _.
   Qed.
 End Succeeded2.
+
+(** * 12. Phase objects the loop touched carry the ObjectSet's paused state (C09, delegated) *)
+Section Touched.
+  Variable force : bool.
+  Local Notation c := (Build_cfg FObjectSet force).
+
+  Definition pev_name (p : pev) : N :=
+    match p with PGet n _ | PCreate n _ | PPause n _ _ | PDelete n _ | PStrip n _ | PFinalizer n _ _ | PStatus n _ _ _ => n end.
+  (** no request of the list names the phase object [nm] *)
+  Definition untouched (evs : list sev) (nm : N) : Prop :=
+    Forall (fun e => match e with SPhase p => pev_name p <> nm | _ => True end) evs.
+
+  Lemma only_phase_untouched n evs nm : only_phase_evs n evs -> n <> nm -> untouched evs nm.
+  Proof.
+    intros H Hne. eapply Forall_impl; [|exact H]. intros e He. destruct e as [x|ms|p]; [exact I|exact I|].
+    destruct p; cbn in *; try contradiction; congruence.
+  Qed.
+
+  Lemma members_untouched (l : list ev) nm : untouched (map SMember l) nm.
+  Proof. apply Forall_forall. intros e He. apply in_map_iff in He. destruct He as (x & <- & _). exact I. Qed.
+
+  Lemma untouched_app a b nm : untouched a nm -> untouched b nm -> untouched (a ++ b) nm.
+  Proof. intros Ha Hb. apply Forall_app. auto. Qed.
+
+  Definition synced_or_foreign (s : oset) (p : osphase) : Prop :=
+    op_paused p = desired_paused s \/ controlled_by_uid (op_owners p) (oi_uid (os_id s)) = false.
+
+  Lemma remote_step_synced sw s ph rem sw1 e1 rem1 r :
+    remote_reconcile sw s ph rem = (sw1, e1, rem1, r) ->
+    exists p, phase_obj_of sw1 s ph = Some p /\ synced_or_foreign s p.
+  Proof.
+    unfold remote_reconcile, phase_obj_of, pobj_name, synced_or_foreign, desired_paused.
+    cbn [desired_phase op_id oi_kind oi_ns oi_name op_paused].
+    set (name := join_name (oi_name (os_id s)) (ph_name ph)).
+    destruct (find_phase (sw_phases sw) (phase_kind s) (oi_ns (os_id s)) name) as [cur|] eqn:Ef.
+    - destruct (find_phase_key _ _ _ _ _ Ef) as (Hk & Hns & Hn).
+      destruct (controlled_by_uid (op_owners cur) (oi_uid (os_id s))) eqn:Ec; cbn [negb].
+      2:{ intros H. injection H as <- _ _ _. exists cur. auto. }
+      destruct (Bool.eqb (op_paused cur) _) eqn:Ep.
+      + intros H. injection H as <- _ _ _. exists cur. split; [exact Ef|left; now apply Bool.eqb_prop].
+      + intros H. injection H as <- _ _ _. cbn [sw_phases with_phases].
+        set (cur' := phase_with cur _ _ _ _ _ _). exists cur'. split; [|now left].
+        pose proof (find_put_phase_same (sw_phases sw) cur') as Hx. change (op_id cur') with (op_id cur) in Hx.
+        now rewrite Hk, Hns, Hn in Hx.
+    - intros H. injection H as <- _ _ _. cbn [sw_phases with_phases].
+      exists (stamp_phase (desired_phase s ph) (w_uid (sw_w sw)) (w_rv (sw_w sw)) 1). split; [|left; reflexivity].
+      pose proof (find_put_phase_same (sw_phases sw) (stamp_phase (desired_phase s ph) (w_uid (sw_w sw)) (w_rv (sw_w sw)) 1)) as Hx.
+      cbn [op_id stamp_phase desired_phase oi_kind oi_ns oi_name] in Hx. exact Hx.
+  Qed.
+
+  Lemma rpm_touched_synced s ow prev phs : forall sw acc rem sw' evs rem' r,
+    reconcile_phases_m force sw s ow prev phs acc rem = (sw', evs, rem', r) ->
+    NoDup (delegated_names s phs) ->
+    forall q, In q phs -> ph_class q = true ->
+      untouched evs (pobj_name s q) \/ exists p, phase_obj_of sw' s q = Some p /\ synced_or_foreign s p.
+  Proof.
+    induction phs as [|ph rest IH]; intros sw acc rem sw' evs rem' r H Hnd q Hq Hcq; [contradiction|].
+    rewrite rpm_cons in H. destruct (ph_class ph) eqn:Ecl.
+    - rewrite (delegated_names_cons_remote _ _ _ Ecl) in Hnd. inversion Hnd as [|? ? Hnotin Hnd']; subst.
+      destruct (remote_reconcile sw s ph rem) as [[[sw1 e1] rem1] r1] eqn:E1.
+      destruct (remote_reconcile_inv _ _ _ _ _ _ _ _ E1) as (_ & _ & _ & Hev & _).
+      destruct (remote_step_synced _ _ _ _ _ _ _ _ E1) as (p & Hp & Hsy).
+      assert (Hstop : (sw1, e1) = (sw', evs) -> untouched evs (pobj_name s q) \/ exists p, phase_obj_of sw' s q = Some p /\ synced_or_foreign s p).
+      { intros Heq. injection Heq as <- <-. destruct Hq as [<-|Hq]; [right; eauto|left].
+        apply (only_phase_untouched _ _ _ Hev). intros Heq. apply Hnotin. rewrite Heq. now apply in_delegated_names. }
+      destruct r1 as [|active failed]; [injection H as <- <- _ _; now apply Hstop|].
+      destruct failed; [injection H as <- <- _ _; now apply Hstop|].
+      destruct (reconcile_phases_m force sw1 s ow prev rest (acc ++ active) rem1) as [[[sw2 e2] rem2] r2] eqn:E2.
+      injection H as <- <- _ _.
+      destruct Hq as [<-|Hq].
+      + right. exists p. split; [|exact Hsy]. unfold phase_obj_of in *. rewrite <- Hp.
+        destruct (rpm_inv force _ _ _ _ _ _ _ _ _ _ _ E2) as (_ & _ & _ & _ & _ & Hfr). apply Hfr. intros (_ & _ & Hin). contradiction.
+      + destruct (IH _ _ _ _ _ _ _ E2 Hnd' q Hq Hcq) as [Hu|Hr]; [left|now right].
+        apply untouched_app; [|exact Hu]. apply (only_phase_untouched _ _ _ Hev). intros Heq. apply Hnotin. rewrite Heq. now apply in_delegated_names.
+    - rewrite (delegated_names_cons_local _ _ _ Ecl) in Hnd.
+      destruct Hq as [<-|Hq]; [congruence|].
+      destruct (reconcile_phase c idw (sw_w sw) ow prev false (ph_objects ph)) as [[w1 e1] r1] eqn:E1.
+      destruct r1 as [e|vs|actual failed]; try (injection H as _ <- _ _; left; apply members_untouched).
+      destruct failed as [|f fs]; [|injection H as _ <- _ _; left; apply members_untouched].
+      cbv zeta in H.
+      match type of H with context [reconcile_phases_m force ?a s ow prev rest ?b ?d] =>
+        destruct (reconcile_phases_m force a s ow prev rest b d) as [[[sw2 e2] rem2] r2] eqn:E2 end.
+      injection H as <- <- _ _.
+      destruct (IH _ _ _ _ _ _ _ E2 Hnd q Hq Hcq) as [Hu|Hr]; [left|now right].
+      apply untouched_app; [apply members_untouched|exact Hu].
+  Qed.
+End Touched.
